@@ -104,7 +104,7 @@ def gen_actor(rng, aid, ntrees, others):
         ops.append({'op': 'generate_stats', 'tree': tn0, 'path': []})
         ops.append({'op': 'meta_nested', 'tree': tn0,
                     'path': rng.choice([[0], []]), 'prefer': 'stats',
-                    'key': 'zz', 'value': 7})
+                    'key': 'zz', 'value': 7, 'deep': rng.chance(0.7)})
 
     if rng.chance(0.08):
         # metadata assigned as an empty dict (zero keys), then edited in
@@ -204,7 +204,7 @@ def gen_actor(rng, aid, ntrees, others):
             ops.append({'op': 'meta_nested', 'tree': tn,
                         'path': [rng.below(2), rng.below(3)],
                         'prefer': rng.choice(['stats', 'path', 'items']),
-                        'key': 'zz', 'value': 7})
+                        'key': 'zz', 'value': 7, 'deep': rng.chance(0.5)})
         elif k < 18:
             ops.append({'op': rng.choice(['repr', 'iter', 'getattrs']),
                         'tree': tn})
